@@ -17,7 +17,10 @@ RULE = ('corpus first; data lines include nicknames that begin with / equal / co
         'fault; random 3-request sequences with a fault; random longer histories (4-12 calls, several faults, junk '
         'already queued, missing port / text, verbose flag, out-of-alphabet bytes), half of them run pairwise interleaved on two port objects.  A case is one call of one '
         'history; non-trivial = the call had a port and a text; distinct by (history, position)')
-TRUSTED = ['harness/c07.py fake port (pyserial API as used by the code: write, readline) and its script player',
+TRUSTED = ['translator/pyio2lean.py + lean/Plotink/PyIO.lean (Python I/O subset -> Lean; validated on every run by executing '
+           'the regenerated Gen.ebb_serial_query/command on all histories of this module against the real code: value, '
+           'type, escaping exception class, bytes written, reads consumed must be identical)',
+           'harness/c07.py fake port (pyserial API as used by the code: write, readline) and its script player',
            'AST extraction of retry bounds / no-OK list / decode-in-retry-loop from plotink/ebb_serial.py',
            'modelled not verified: pyserial, str.encode/bytes.decode(ascii), str.split/strip/lower on ASCII text, '
            'the logging module (log records are not compared; only that nothing raises)']
@@ -25,12 +28,15 @@ ASSUMPTIONS = ['request texts are ASCII str (or None = "no text"); an empty stri
                'lines sent by the board are ASCII bytes; a read that times out returns b""',
                'serial I/O exceptions are serial.SerialException (and subclasses) and OSError/IOError',
                'the board queues the reply to a request when the request is written (request/response protocol)',
+               'bridge domain (C07_gen_*): fuel >= 101; every scripted fault is SerialException (or a subclass), OSError/IOError '
+               'or RuntimeError; the port object and a str text are passed',
                'conforming exchange: ordinary query = <=100 empties, data line, <=100 empties, OK line; no-OK query '
                '(a,i,mr,pi,qm,qg,v) = <=100 empties, one line; command = <=100 empties, OK line',
                'alignment oracle also requires that a conforming exchange consumes exactly its own reply (no read '
                'after the reply is complete): a primitive that waits for a line the board does not send disagrees '
                'with the board about where the reply ends']
 STAGED = []
+GEN_FUNCTIONS = ['ebb_serial_query', 'ebb_serial_command']
 
 DOC_RETRY = 100
 DOC_NO_OK = ['a', 'i', 'mr', 'pi', 'qm', 'qg', 'v']           # from the property statement
@@ -200,7 +206,7 @@ def tok_str(tokens):
         elif t[0] == 'l':
             out.append('l' + common.enc_str(t[1]))
         else:
-            out.append('x')
+            out.append('x' + (t[1] if len(t) > 1 else 'SerialException'))
     return out
 
 
@@ -275,6 +281,20 @@ def run_impl_interleaved(es, hists, rng):
         if x.done():
             live.remove(x)
     return [(x.obs, x.port) for x in ss]
+
+
+GEN_FUEL = 101      # the bound of the bridge theorems (C07_gen_bridge: fuel >= 101)
+
+
+def gen_line(hist):
+    """the same history for the source-regenerated functions (`c07 gseq`, Drv/C07.lean)"""
+    parts = ['c07 gseq', str(GEN_FUEL), hist.get('wexc', 'SerialException'), hist['w'] or '-'] + tok_str(hist['pre'])
+    for call in hist['calls']:
+        parts.append(';')
+        parts += [call['kind'], '1' if call['port'] else '0',
+                  'None' if call['cmd'] is None else common.enc_str(call['cmd']),
+                  str(call.get('verbose', True))] + tok_str(call['reply'])
+    return ' '.join(parts)
 
 
 def model_line(params, hist):
@@ -716,6 +736,22 @@ def run(ctx):
                     req = strict_expectation(h, k, o)
                     if req is not None and 'S' + common.enc_str(req) != spec:
                         raise common.Infra(f'Python oracle and Lean Spec `arrived` disagree on {h} call {k}: {req!r} vs {spec}')
+        # ---- validation of the translator: the regenerated functions on the same histories, must be identical
+        gouts = ctx.driver.batch([gen_line(h) for _, h, _, _ in batch]) if ctx.driver else []
+        for (src_, h, obs, dom), out in zip(batch, gouts):
+            per = out.split(' ; ')
+            for k, o in enumerate(obs):
+                g = per[k] if k < len(per) else 'MISSING'
+                ctx.paths['gen:' + ('same' if g == o['canon'] else 'differs')] = \
+                    ctx.paths.get('gen:' + ('same' if g == o['canon'] else 'differs'), 0) + 1
+                if g != o['canon']:
+                    if dom:
+                        ctx.disagree('regenerated code (Gen.ebb_serial_query/command) vs implementation: call result '
+                                     '(value/type/escaping exception class, writes, reads, queue left)',
+                                     {'history': h, 'call': k}, o['canon'], g)
+                    else:
+                        ctx.out_of_domain.append({'history': h, 'call': k, 'impl': o['canon'], 'gen': g})
+                    break
         batch.clear()
 
     import random as _random
